@@ -47,8 +47,10 @@ MC = {
 
 # which properties claim which kinds of rejected trace lines
 def claims(pid, op, kind, wf):
-    if op == "hang":
-        return True          # a DOM call that did not return within 20 s, whichever property is being checked
+    if op in ("hang", "driver_panic"):
+        # a DOM call that did not return within 20 s / a DOM so damaged that the driver's own walks panic,
+        # whichever property is being checked
+        return True
     if pid == "C09":
         return wf == "illformed" or op in ("walk", "transfer_within_bad", "insert_collide") or \
             (kind == "struct" and op in ("destroy", "transfer"))
